@@ -56,23 +56,27 @@ def param_cases(prog, body):
     return cases
 
 
-def op_transactions(prog, body, subst=None):
+def op_transactions(prog, body, subst=None, shifts=None):
     out = {}
     for case in param_cases(prog, body):
         def setup(an_, fr, st, case=case):
             for (i, nm, lab, mk) in case:
                 st.env[(fr.id, i)] = mk('p%d_%s' % (i, nm))
             for i in range(1, body.argc + 1):
+                if body.local_name(i) == 'frequency_in_hz' and body.locals[i] == 'u32':
+                    # legal RF frequencies (the property quantifies over 137 - 1020 MHz)
+                    sym = 'p%d_frequency_in_hz' % i
+                    st.lo[sym], st.hi[sym] = 137000000, 1020000000
                 if body.local_name(i) == 'mdltn_params' and body.locals[i].startswith('&'):
                     # ModulationParams.low_data_rate_optimize is 0 or 1: the only constructor is create_modulation_params (decided by C15)
                     sym = 'p%d_mdltn_params*.low_data_rate_optimize' % i
                     st.lo[sym], st.hi[sym] = 0, 1
         lab = ','.join('%s=%s' % (nm, lab) for (i, nm, lab, mk) in case)
-        out[lab] = [k for k, _ in spi.transactions(prog, body, setup=setup, subst=subst)]
+        out[lab] = [k for k, _ in spi.transactions(prog, body, setup=setup, subst=subst, shifts=shifts)]
     return out
 
 
-def extract(c):
+def extract(c, shifts=None):
     prog = c.prog
     out = {}
     n_ops = 0
@@ -87,7 +91,7 @@ def extract(c):
             n_ops += 1
             variants = sorted(SX127X_VARIANTS.items()) if chip == 'sx127x' else [(chip, None)]
             for vn, vty in variants:
-                for lab, txs in op_transactions(prog, prog.by_short[n][0], {'C': vty} if vty else None).items():
+                for lab, txs in op_transactions(prog, prog.by_short[n][0], {'C': vty} if vty else None, shifts).items():
                     out['%s::%s%s' % (vn, m, '{%s}' % lab if lab else '')] = txs
     # operations that are the same for both SX127x variants are listed once
     for k in sorted(out):
@@ -224,7 +228,8 @@ def tx_refines(got, want):
 def run(tier):
     res = Result(PID)
     c = ctx('ws')
-    got = extract(c)
+    shifts = {}
+    got = extract(c, shifts)
     codes = code_tables(c)
     if os.environ.get('C13_DUMP'):
         print(json.dumps({'transactions': {k: [json.loads(x) for x in v] for k, v in got.items()}, 'codes': codes}, indent=1))
@@ -232,6 +237,17 @@ def run(tier):
     with open(TABLE_FILE) as f:
         want = json.load(f)
     n_tx = 0
+    # reviewed differences from the reference driver's bytes: shapes of a 'finding' are reported while the driver issues them;
+    # they and the reference's own shapes are accepted but not demanded (a repair towards the reference raises no alarm)
+    optional, accepted_extra, findings = {}, {}, []
+    for d in want.get('deviations', []):
+        for op in d.get('ops', []):
+            for sh in d.get('driver_shapes', []) + d.get('reference_shapes', []):
+                optional.setdefault(op, []).append(sh)
+            for sh in d.get('reference_shapes', []):
+                accepted_extra.setdefault(op, []).append(sh)
+        if d.get('status') == 'finding':
+            findings.append(d)
     for op in sorted(set(got) | set(want['transactions'])):
         g, w = got.get(op), want['transactions'].get(op)
         if w is None:
@@ -241,21 +257,42 @@ def run(tier):
         if g is None:
             res.require(not w, 'C13:%s:operation-missing' % op, 'operation case %s of the reference table is no longer found in the driver' % op, op, 'TABLE(transactions)', instance=op)
             continue
-        extra = [x for x in g if not any(tx_refines(x, y) for y in w)]
-        missing = [json.dumps(y) for y in w if not any(tx_refines(x, y) for x in g)]
+        acc = list(w) + accepted_extra.get(op, [])
+        extra = [x for x in g if not any(tx_refines(x, y) for y in acc)]
+        missing = [json.dumps(y) for y in w if y not in optional.get(op, []) and not any(tx_refines(x, y) for x in g)]
         n_tx += len(g)
         res.require(not extra and not missing, 'C13:%s:transactions' % op, '%s: SPI transactions differ from the reference table; issued but not in the table: %s; in the table but no longer issued: %s' % (op, extra[:3], missing[:3]), op,
                     'TABLE(SPI transactions: opcode / address, constants, argument bit placement, RMW masks)', instance='%s: %d transaction shape(s) as in the reference table' % (op, len(g)))
+    for d in findings:
+        hit = [op for op in d['ops'] if any(tx_refines(x, y) for x in (got.get(op) or []) for y in d.get('driver_shapes', []))]
+        if hit:
+            res.violation('C13:deviates-from-reference:%s' % d['id'], '%s (operations %s)' % (d['what'], hit), hit[0], 'REFERENCE(bytes of the reference driver)')
+        else:
+            res.ok('REFERENCE(bytes of the reference driver)', 'reviewed deviation %s is no longer issued by the driver' % d['id'])
+    res.coverage['documented_differences'] = [{'id': d['id'], 'what': d['what'], 'where': d.get('where')} for d in want.get('deviations', []) if d.get('status') == 'documented']
     if n_tx < 250:
         raise CheckError('floor: SPI transaction shapes extracted %d < 250' % n_tx)
     for key in sorted(set(codes) | set(want['codes'])):
         res.require(codes.get(key) == want['codes'].get(key), 'C13:%s:code-table' % key, 'parameter codes %s: %s (data sheet: %s)' % (key, codes.get(key), want['codes'].get(key)), key,
                     'TABLE(parameter codes over every enum value)', instance='%s codes as in the data sheet' % key)
     freq_formula(c, res)
+    # FIELD-FIT: a value packed into a command / register byte by a constant left shift must fit the field - no set bit
+    # may be shifted out of the type (Rust does not check this). Judged with the interval of the operand in every
+    # context of the analysed operations (all arguments and chip bytes symbolic).
+    lossy = {}
+    for fn, l in shifts.items():
+        if not fn.startswith('lora_phy::sx12') and not fn.startswith('<lora_phy::sx12'):
+            continue
+        for (ty, k, lo, hi, sp) in l:
+            lossy.setdefault((fn, ty, k), []).append(hi)
+    for (fn, ty, k), his in sorted(lossy.items()):
+        res.violation('C13:%s:shift-loses-bits:%s<<%d' % (rules.short_fn(fn), ty, k), '%s: a %s value that can be as large as %d is shifted left by %d: set bits fall out of the field and the byte written differs from the encoding' % (
+            fn, ty, max(his), k), fn, 'FIELD-FIT(constant left shift keeps every set bit)')
+    res.require(True, 'C13:field-fit', '', None, 'FIELD-FIT(constant left shift keeps every set bit)', instance='no constant left shift in the analysed driver operations can lose a set bit (%d functions analysed)' % len(got))
     res.coverage.update({'operation_cases': len(got), 'transaction_shapes': n_tx, 'code_tables': sorted(codes), 'configs': [c.info],
                          'not_decided': 'transaction order inside an operation; numeric value of bits marked ? / any (timeouts, symbol counts, power, image calibration, RF frequency words); LR11xx'})
     res.samples = [{'operation': k, 'transactions': [json.loads(x) for x in v][:3]} for k, v in sorted(got.items())[:4]]
     res.explanation = __doc__
     res.assumptions = ['the reference table lrs/props/c13_table.json was reviewed against the Semtech data sheets (opcode legend in the file); it is the oracle',
-                       'bits whose value is an arithmetic encoding are not judged (? / any)', 'ModulationParams.low_data_rate_optimize is 0 or 1 (its only constructor, decided by C15)']
+                       'bits whose value is an arithmetic encoding are not judged (? / any)', 'ModulationParams.low_data_rate_optimize is 0 or 1 (its only constructor, decided by C15)', 'RF frequency arguments are legal (137 - 1020 MHz)']
     return res
